@@ -14,6 +14,10 @@ The round trip `load spec (export d)` in the model of `generate_type_dict` / `mo
 * `export_validates`    if every required model field is a computed field with a value, the exported document validates;
 * `not_exported_unreadable`  an attribute that is no field of the external-type model cannot be read through a loaded type
                         (why `usedThroughTypeDef ⊆ loadable` is an obligation, generated from the live templates every run).
+* `loadFile_registers`, `export_registered`  `Resolver.load_external` over a whole file: every document is registered under
+                        its own qualified name with exactly the validated type, whether or not the loader can locate the
+                        `name:` line (`located` — false for names `yaml.dump` quotes: `on`, `No`, `NULL`, …); a file is only
+                        refused for an invalid document or an already registered name (`loadFile_ok_of_valid_fresh`).
 
 Which attributes dependants read, which are computed fields for which declaration kind, and which are model fields are
 tables regenerated from the live source; the inclusions `usedOk`, `exportedOk`, `requiredOk` over them are checked by
@@ -408,5 +412,78 @@ theorem export_validates (d : LocalDecl) (spec : ExtSpec)
         cases hr : loadGens («export» d) rest with
         | none => simp [hr] at ihr
         | some r => simp [hlf]
+
+/-! ## whole files: every exported declaration is registered, whatever its name -/
+
+theorem hasKey_append (k : List String × String) (a b : List Entry) : hasKey k (a ++ b) = (hasKey k a || hasKey k b) := by
+  induction a with
+  | nil => simp [hasKey]
+  | cons x rest ih => simp [hasKey, ih, Bool.or_assoc]
+
+theorem hasKey_iff (k : List String × String) (reg : List Entry) : hasKey k reg = true ↔ ∃ en ∈ reg, en.key = k := by
+  induction reg with
+  | nil => simp [hasKey]
+  | cons x rest ih => simp [hasKey, ih]
+
+/-- the registry only grows, and every document of the file ends up in it under its own qualified name with exactly the
+    validated type — no condition on `located` (on whether the loader could find the `name:` line) -/
+theorem loadFile_registers (spec : ExtSpec) (docs : List Doc) (reg reg' : List Entry) (h : loadFile spec docs reg = .ok reg') :
+    (∀ en ∈ reg, en ∈ reg') ∧
+    ∀ d ∈ docs, ∃ e k, load spec d = some e ∧ registryKey e.base = some k ∧ ∃ en ∈ reg', en.key = k ∧ en.ext = e := by
+  induction docs generalizing reg with
+  | nil =>
+    simp only [loadFile, FileResult.ok.injEq] at h
+    subst h
+    exact ⟨fun _ h => h, fun _ hd => by cases hd⟩
+  | cons d ds ih =>
+    unfold loadFile at h
+    cases hl : load spec d with
+    | none => simp [hl] at h
+    | some e =>
+      simp only [hl] at h
+      cases hk : registryKey e.base with
+      | none => simp [hk] at h
+      | some k =>
+        simp only [hk] at h
+        by_cases hdup : hasKey k reg = true
+        · simp [hdup] at h
+        · have hdup' : hasKey k reg = false := by cases hq : hasKey k reg <;> simp_all
+          simp only [hdup', Bool.false_eq_true, if_false] at h
+          obtain ⟨hmono, hall⟩ := ih _ h
+          refine ⟨fun en hen => hmono en (by simp [hen]), ?_⟩
+          intro d' hd'
+          rcases List.mem_cons.mp hd' with rfl | hd'
+          · exact ⟨e, k, hl, hk, ⟨{ key := k, ext := e, located := plainScalar k.2 }, hmono _ (by simp), rfl, rfl⟩⟩
+          · exact hall d' hd'
+
+/-- a file is refused only for an invalid document or a qualified name that is already registered — never for its spelling -/
+theorem loadFile_ok_of_valid_fresh (spec : ExtSpec) (d : Doc) (reg : List Entry) (e : ExtType) (k : List String × String)
+    (hl : load spec d = some e) (hk : registryKey e.base = some k) (hf : hasKey k reg = false) :
+    loadFile spec [d] reg = .ok (reg ++ [{ key := k, ext := e, located := plainScalar k.2 }]) := by
+  simp [loadFile, hl, hk, hf]
+
+/-- **export_registered**: when the file written for the declarations `ds` loads, every declaration is found under its own
+    qualified name (`roundtrip_key`), also one whose name PyYAML has to quote -/
+theorem export_registered (spec : ExtSpec) (ds : List LocalDecl) (reg : List Entry)
+    (h : loadFile spec (ds.map «export») [] = .ok reg)
+    (d : LocalDecl) (hd : d ∈ ds) (ns : List String) (n : String)
+    (h1 : lookup "namespace" d.base.fields = some (.list ns)) (h2 : lookup "name" d.base.fields = some (.str n)) :
+    ∃ en ∈ reg, en.key = (ns, n) := by
+  obtain ⟨_, hall⟩ := loadFile_registers spec _ [] reg h
+  obtain ⟨e, k, hl, hk, en, hen, hkey, _⟩ := hall («export» d) (List.mem_map.mpr ⟨d, hd, rfl⟩)
+  have := roundtrip_key d spec e hl ns n h1 h2
+  rw [hk] at this
+  have hk' : k = (ns, n) := by
+    simp [registryKey, h1, h2] at this
+    exact this
+  exact ⟨en, hen, hkey.trans hk'⟩
+
+/-- the quoted names are registered like the others (non-vacuity: `on` is not located, `level` is) -/
+def tinySpec : ExtSpec := [("cpp", [⟨"typename", true, .null⟩])]
+def tinyDoc (n : String) : Doc := { base := [("name", .str n), ("namespace", .list ["power"])], gens := [("cpp", [("typename", .str "T")])] }
+example : (match loadFile tinySpec [tinyDoc "on", tinyDoc "level"] [] with
+    | .ok reg => reg.map (fun en => (en.key, en.located))
+    | _ => []) = [((["power"], "on"), false), ((["power"], "level"), true)] := by decide +kernel
+example : loadFile tinySpec [tinyDoc "on", tinyDoc "on"] [] = .duplicate (["power"], "on") := by decide +kernel
 
 end Pydjinni.C13
